@@ -25,13 +25,13 @@ type Row struct {
 // FSM is the transition relation and configuration extracted from
 // channels/channels_fsm.go (DESIGN E1).
 type FSM struct {
-	Events       []string // events with rows, in declaration order
-	Rows         []Row
-	Action       map[string]*ssa.Function
-	ActionLit    map[string]*ast.FuncLit
+	Events    []string // events with rows, in declaration order
+	Rows      []Row
+	Action    map[string]*ssa.Function
+	ActionLit map[string]*ast.FuncLit
 	// ActionBind: for an action made by a factory called with constants, the
 	// values of the factory's parameters (free variables of the closure)
-	ActionBind map[string]map[string]string
+	ActionBind   map[string]map[string]string
 	EntryFuncs   map[string]string // status → function name
 	Cleanup      []string
 	Finality     []string
